@@ -52,6 +52,7 @@ ASSUMPTIONS = ["cold start, configuration format version 2, default modules (lad
 STAGES = ["Config", "State", "Time", "Grid", "Forcing", "Release", "Tracker", "Ibm", "Output"]
 CLASS2STAGE = {"State": 1, "TimeKeeper": 2, "Grid": 3, "Forcing": 4, "ParticleReleaser": 5, "Tracker": 6, "IBM": 7,
                "Output": 8}
+NAME2STAGE = {"state": 1, "time": 2, "grid": 3, "forcing": 4, "release": 5, "tracker": 6, "ibm": 7, "output": 8}
 SEC = {"missing": 0, "null": 1, "present": 2}
 CF = {"ok": 0, "missing": 1, "badsyntax": 2, "badversion": 3}
 
@@ -163,6 +164,9 @@ def stage_of(tb) -> int:
         fn = frame.f_code.co_filename.replace("\\", "/")
         if fn.endswith("ladim/configure.py") and stage < 0:
             stage = 0
+        if fn.endswith("ladim/model.py") and frame.f_code.co_name == "__init__" and stage < 0:
+            # config[name] of a missing section: the loop variable names the module being built
+            stage = NAME2STAGE.get(frame.f_locals.get("name"), -1)
         if fn.endswith("ladim/model.py") and frame.f_code.co_name == "init_module":
             stage = CLASS2STAGE.get(frame.f_locals.get("main_class_name"), -1)
     return stage
@@ -324,8 +328,6 @@ def faults_of(desc):
             out.append("output.filename missing")
         if desc["out_period"] is None:
             out.append("output.output_period missing")
-        elif dt and desc["out_period"] // dt == 0:
-            out.append("output period shorter than the time step")
         if not desc["out_ivars"]:
             out.append("output.instance_variables missing")
     if desc["sec"]["forcing"] == "present" and not desc["grid_has_module"] and not desc["forcing_has_module"]:
@@ -370,7 +372,7 @@ def encode(desc, obs):
     out += [int(desc["grid_file"]), desc["imax"], desc["jmax"]]
     out += [0, 0, 0, 0, 0] if sg is None else [1] + [int(x) for x in sg]
     out += [int(desc["rel_has_key"]), int(desc["rel_name_empty"]), int(desc["rel_file"]),
-            int(desc["rel_pos"] in ("xy", "lonlat", "rowgap"))]
+            int(desc["rel_pos"] in ("xy", "lonlat", "rowgap")), int(desc["rel_pos"] != "rowgap")]
     out += opt(desc["rel_cont"])
     out += [int(desc["out_filename"])] + opt(desc["out_period"]) + [int(desc["out_ivars"])]
     files = desc["files"] if desc["forcing_matches"] else []
@@ -396,8 +398,6 @@ def eval_case(desc, ctx):
         else ("ran" if not obs["exception"] else "died-in-loop")
     res = {"ints": encode(desc, obs), "oracle": msg, "nontrivial": nt, "kind": kind,
            "observed": dict(obs, faults=faults, label=label, base=base)}
-    if msg and desc.get("finding_key"):
-        res["finding_key"] = desc["finding_key"]
     return res
 
 
@@ -478,6 +478,10 @@ def refile(desc, frames):
 
 def lo_hi(desc):
     return min(desc["start"], desc["stop"]), max(desc["start"], desc["stop"])
+
+
+def timed(desc):
+    return desc["start"] is not None and desc["stop"] is not None and bool(desc["dt"])
 
 
 # every injector takes (desc, rng) and edits desc in place; returns False when not applicable
@@ -595,7 +599,6 @@ def f_rel_nopos(d, rng):
 
 def f_rel_rowgap(d, rng):
     d["rel_pos"] = "rowgap"
-    d["finding_key"] = "release-row-without-position-value"
 
 
 def f_rel_missing(d, rng):
@@ -661,12 +664,6 @@ def f_out_noperiod(d, rng):
     d["out_period"] = None
 
 
-def f_out_short_period(d, rng):
-    if d["dt"] < 2:
-        return False
-    d["out_period"] = d["dt"] // 2
-
-
 def mk_cf(how):
     def f(d, rng):
         d["cf"] = how
@@ -702,7 +699,7 @@ INJECTORS = [
     *[mk_sec(n, "missing") for n in ("time", "forcing", "release", "tracker", "output")],
     *[mk_sec(n, "null") for n in ("time", "forcing", "release", "tracker", "output")],
     mk_flag("forcing_has_filename"), f_grid_nofilename_valid, f_forcing_nomodule, v_forcing_nomodule_gridmodule,
-    mk_flag("out_filename"), f_out_noperiod, f_out_short_period, mk_flag("out_ivars"),
+    mk_flag("out_filename"), f_out_noperiod, mk_flag("out_ivars"),
     mk_cf("missing"), mk_cf("badsyntax"), mk_cf("badversion"),
     *[mk_sub(k) for k in ("i_order", "i_order2", "j_order", "i_beyond", "j_beyond", "zero", "neg_beyond",
                           "neg_j_order", "legal_neg", "legal_inner")],
@@ -712,7 +709,11 @@ INJECTORS = [
 def inject(base, injs, rng):
     d = copy.deepcopy(base)
     for f in injs:
-        if f(d, rng) is False:
+        try:
+            r = f(d, rng)
+        except TypeError:  # an earlier injection removed start/stop/dt: this one has nothing to work on
+            return None
+        if r is False:
             return None
         d["label"] = d["label"] + [f.__name__]
     return d
